@@ -96,6 +96,12 @@ CHECKS = {
   text='1600 (30000) generated programs from five grammar profiles (branches and one-armed ifs, for / while loops, nested with-blocks incl. computed contexts, constant expressions, copies and redefinitions, list construction / aliasing / slicing / indexed assignment / rebinding of local lists in branches and loops, nested lists, tuples and destructuring, comprehensions, zip / enumerate, helper calls that mutate list arguments) are run on 8 (12) argument tuples incl. specials, lists of every length and nested lists, under 3 caller contexts. For every evaluated expression: its value has the shape of TypeInfer.by_expr (bool / number / list / tuple / context, static list length); a list has the concrete ArraySizeInfer size and all lists sharing a size variable have one length within a run; the class of a number (NaN / Inf / zero / finite) is among ValueClassInfer.by_expr; the value equals the constant PartialEval.by_expr reports. For every variable read: the assignment / indexed assignment / loop header / with / argument that last bound the name is among the assignments its DefineUse definition stands for (phi operands expanded). At every binding of a list: any other name bound to the identical list object must be may_alias with it; a name bound to an element list of another must share that one\'s depth-1 region. Facts are checked up to a raise as well.',
   ref='DESIGN.md 0.3, 2/C13',
   note='Trusted: the tracing hooks return their argument unchanged (C04 checks the untraced interpreter separately). Per-analysis counters of checked and of distinct constraining facts are in the evidence; the run is inconclusive if any analysis contributed fewer than 50 constraining facts. Escape / purity / liveness are exercised only through their consumers (C07, C11).'),
+ 'C14': dict(
+  technique='(a) online trace checker (tracing subclass of the real bytecode compiler) judging every evaluated expression value against FormatInfer.by_expr / ret_fmt under pinned signatures; (b) algebraic monitor over AbstractFormat operators on all members of small formats; (c) monitor of round_is_identity against the independent rounding oracle',
+  category='exploration',
+  text='(a) 480 (9000) generated numeric programs (exact arithmetic under REAL, rounding blocks over int8 / uint4 / fixed / 8-bit float / 3-bit float contexts, accumulating for / while loops, branches refined by comparisons, isnan / isinf / logb ladders, -0 / inf / NaN producers, min / max / fma / floor / division) are analysed by the real FormatInfer under 3 of 10 pinned (caller context, argument format) signatures each and run through the tracing compiler on 10 (16) argument tuples drawn from ALL members of the pinned argument format (finite values, both zeros, infinities, NaN where the format has them, lists of length 0-3): every evaluated expression value must be a member of by_expr[e] and the result a member of fn_fmt.ret_fmt (SetFormat / AbstractFormat membership by predicates written here: quantum, significant bits, bounds, four special flags; concrete Format membership by the number library). Only the first value outside its format is reported per run (later ones are consequences). (b) 110 base abstract formats (those of 26 small contexts of every family plus a hand-made grid prec x exp x symmetric / asymmetric / zero / unbounded bounds x special flags) and ~360 formats the operators produce from them; for 3450 (96000) ordered pairs and all members in a window (<= 33 each): a+b in A+B, a-b in A-B, a*b in A*B, members of A and B in A|B, A<=B only if no member of A lies outside B; for every format -a in -A, |a| in |A|. Exact results by the Fraction oracle with IEEE 754 zero-sign rules. (c) round_is_identity(A, ctx) for every format x 26 contexts: a claimed identity must leave every member unchanged under the rounding oracle of C01.',
+  ref='DESIGN.md 2/C14',
+  note='Trusted: membership predicates in vf/checks/c14.py; vf/oracle/{arith,rnd,describe}.py. Operators that raise (AssertionError in effective_prec for bounded formats with unbounded exponent range) and analyses that raise (ValueError from _materialize_in_scope, the F33 mechanism) compute no format and are counted (operator_raised, analysis_errors), not judged. Known finding F46 (exact -(+0) and negative * (+0) are -0 although no operand format has a -0; same root cause as F32) is reported as KNOWN-FINDING.'),
  'C15': dict(
   technique='bounded enumeration of program skeletons compiled by the real front end; accepted ones executed on every combination of branch outcomes and trip counts; the Python runtime\'s unbound-variable detection and a definite-assignment judgement as oracles',
   category='exploration',
